@@ -44,6 +44,7 @@ type SpecEnv struct {
 	side  *[]*Term // ground side facts (e.g. map well-formedness) usable as assumptions
 	inQ   int
 	pos   token.Pos // program point whose locals are visible (outside loop contexts)
+	headSt *State   // state at the head of the innermost enclosing loop (anchored assertions)
 }
 
 func (e *SpecEnv) with(st *State) *SpecEnv {
@@ -130,6 +131,9 @@ func (e *SpecEnv) tr(x Expr) SV {
 		st := e.old
 		if n.Label == "loop" {
 			st = e.pre
+		}
+		if n.Label == "head" {
+			st = e.headSt
 		}
 		if st == nil {
 			sfail("old/pre not available here")
